@@ -863,9 +863,10 @@ Lemma checker_accepts_means pre e o post :
   | SaveTick _ faults, Saved trace reads =>
       match written_of trace with
       | Some w => crash_spec reads w /\
-                  (completed faults trace = true ->
+                  (forallb negb faults = true ->
+                   length trace = 6%nat /\
                    exists cfg, last reads None = Some cfg /\ saved_spec (map fst pre) cfg)
-      | None => True
+      | None => forallb negb faults = false
       end
   | Restart, Restored l => restored_spec (map fst pre) l
   | Wait, Waited b => wait_spec (map fst pre) b
@@ -876,10 +877,14 @@ Proof.
   destruct e as [tag ob x| | |now faults|], o as [l|b|tr reads|l]; try exact I.
   - cbn [check_one] in H. now apply sendall_check_sound.
   - cbn [check_one] in H. now apply wait_check_sound.
-  - cbn [check_one] in H. destruct (written_of tr) as [w|]; [|exact I].
-    apply andb_true_iff in H as [Hc Hs]. split; [now apply crash_check_sound|].
-    intro Hcomp. rewrite Hcomp in Hs. destruct (last reads None) as [cfg|]; [|discriminate].
-    exists cfg. split; [reflexivity | now apply saved_check_sound].
+  - cbn [check_one] in H. destruct (written_of tr) as [w|].
+    + apply andb_true_iff in H as [Hc Hs]. split; [now apply crash_check_sound|].
+      intro Hnf. rewrite Hnf in Hs. apply andb_true_iff in Hs as [Hcomp Hs].
+      unfold completed in Hcomp. apply andb_true_iff in Hcomp as [_ Hlen]. apply Nat.eqb_eq in Hlen.
+      split; [exact Hlen|].
+      destruct (last reads None) as [cfg|]; [|discriminate].
+      exists cfg. split; [reflexivity | now apply saved_check_sound].
+    + apply andb_true_iff in H as [Hnf _]. now apply negb_true_iff in Hnf.
   - cbn [check_one] in H. now apply restored_check_sound.
 Qed.
 
